@@ -6,15 +6,17 @@ From BV Require Import Base.Prelude Model.Block Model.ForkDB Model.Forkable Mode
   Spec.C01_Spec Spec.C01_Moving_Spec Spec.C05_History_Spec Proofs.Hub.C05_History.
 Local Open Scope N_scope.
 
-(* partial w.r.t. C05_resume_full: histories with a block whose parent id is empty are excluded (disc_scope_b);
-   Irreversible (final-only) cursors are not covered *)
+(* the clause over histories of Spec/C05_Spec.v (stated there, not proved there), at full strength *)
+Theorem c05_resume_full : C05_resume_full.
+Proof. exact c05_resume_full_proof. Qed.
+Print Assumptions c05_resume_full.
+
+(* the same with the stronger conclusion "the burst leaves the consumer in the state of the never-disconnected
+   consumer" (named _partial2 as a part of property C05: final-only cursors, the through-cursor variant and the
+   serving obligation over histories are not covered by it) *)
 Theorem c05_resume_partial2 : C05_resume_history.
 Proof. exact c05_resume_history_proof. Qed.
 Print Assumptions c05_resume_partial2.
-
-Theorem c05_resume_full_partial : C05_resume_full_no_empty_parent.
-Proof. exact c05_resume_full_no_empty_parent_proof. Qed.
-Print Assumptions c05_resume_full_partial.
 
 Theorem c05_cursor_meets_hypotheses : C05_cursor_meets_hypotheses.
 Proof. exact c05_cursor_meets_hypotheses_proof. Qed.
@@ -38,13 +40,16 @@ Definition hx_b3' := mkBlock 23 3 12 1.
 Definition hx_b4 := mkBlock 14 4 13 2.
 Definition hx_b5 := mkBlock 15 5 14 3.
 Definition hx_h := [hx_b1; hx_b2; hx_b3'; hx_b3; hx_b4; hx_b5].
+(* the same tree hanging under a root (a block with an empty parent id) *)
+Definition hx_r1 := mkBlock 11 1 0 0.
+Definition hx_hr := [hx_r1; hx_b2; hx_b3'; hx_b3; hx_b4; hx_b5].
 Definition hx_cfg (first : N) := hub_config first 2.
 Definition hx_tr (first : N) := fk_run (hx_cfg first) (fs_init LNone) hx_h.
 Definition hx_upto (first : N) (n : nat) := concat (map fst (firstn n (hx_tr first))).
 Definition hx_s (first : N) (m : nat) := state_after (hx_cfg first) (fs_init LNone) hx_h m.
 
 Example c05h_nonvacuous_history :
-  disc_scope_b hx_h = true /\ length (hx_tr 1) = 6%nat /\ length (hx_tr 0) = 6%nat /\
+  wf_b hx_h = true /\ lib_ok_b LNone hx_h = true /\ wf_b hx_hr = true /\ lib_ok_b LNone hx_hr = true /\ length (hx_tr 1) = 6%nat /\ length (hx_tr 0) = 6%nat /\
   map (fun e => (estep e, bid (eblk e), ri (elib e))) (hx_upto 1 6) =
     [(SNew, 11, 11); (SIrr, 11, 11); (SNew, 12, 11); (SNew, 23, 11); (SUndo, 23, 11); (SNew, 13, 11); (SNew, 14, 11);
      (SIrr, 12, 12); (SNew, 15, 12); (SIrr, 13, 13); (SStalled, 23, 13)] /\
@@ -105,3 +110,23 @@ Proof.
   split; [vm_compute; reflexivity|]. vm_compute. split; [reflexivity|]. split; [reflexivity|]. split; [reflexivity|].
   apply (bt_last _ _ 23 (mkEntry hx_b3' true)); vm_compute; reflexivity.
 Qed.
+
+(* with the root: the same events as (b) when the first streamable block is 0, and the resume clause on them *)
+Example c05h_nonvacuous_root :
+  let tr := fk_run (hub_config 0 2) (fs_init LNone) hx_hr in
+  let upto n := concat (map fst (firstn n tr)) in
+  map (fun e => (estep e, bid (eblk e), ri (elib e))) (upto 6%nat) =
+    [(SNew, 12, 11); (SIrr, 11, 11); (SNew, 23, 11); (SUndo, 23, 11); (SNew, 13, 11); (SNew, 14, 11);
+     (SIrr, 12, 12); (SNew, 15, 12); (SIrr, 13, 13); (SStalled, 23, 13)] /\
+  match nth_error (upto 6%nat) 2%nat with
+  | Some ek =>
+      match cons_fold cons0 (firstn 3%nat (upto 6%nat)), cons_fold cons0 (upto 6%nat),
+            blocks_from_cursor (state_after (hub_config 0 2) (fs_init LNone) hx_hr 6%nat) (ev_cursor ek) with
+      | Some ck, Some cm, BOk evs =>
+          map (fun e => (estep e, bid (eblk e))) evs = [(SUndo, 23); (SIrr, 12); (SNewIrr, 13); (SNew, 14); (SNew, 15)] /\
+          cons_fold (mkCons (cs_stack ck) (length (filter (fun b => bnum b <=? rn (elib ek)) (cs_stack ck))) true) evs = Some cm
+      | _, _, _ => False
+      end
+  | None => False
+  end.
+Proof. vm_compute. repeat split. Qed.
